@@ -19,6 +19,7 @@ import ast
 import itertools
 
 from sa import core
+from sa import formula
 from sa import pat
 from sa import pycfg
 from sa import tpl
@@ -489,27 +490,32 @@ def check(model, rep, tier):
          core.norm(n.test) == 'inspect_utils.isbuiltin(f)']
   if len(blt) != 1:
     raise core.AnalysisError('builtin branch of converted_call not found')
-  seen_generic = False
-  found = {}
-  for s in blt[0].body:
-    if isinstance(s, ast.If) and isinstance(s.test, ast.Compare) and isinstance(
-        s.test.ops[0], ast.Is) and core.norm(s.test.left) == 'f':
-      nm = core.norm(s.test.comparators[0])
-      r = s.body[0]
-      if isinstance(r, ast.Return) and isinstance(r.value, ast.Call):
-        found[nm] = (core.dotted(r.value.func), [core.norm(x) for x in r.value.args],
-                     seen_generic)
-    elif any(isinstance(c, ast.Call) and core.dotted(c.func) ==
-             'py_builtins.overload_of' for c in ast.walk(s)):
-      seen_generic = True
+  # inside the builtin branch: which call answers each frame-sensitive builtin
+  fakeb = ast.FunctionDef(name='_builtin_branch', args=cc.node.args, body=blt[0].body,
+                          decorator_list=[], lineno=blt[0].lineno)
+  idents = ('eval', 'super', 'globals', 'locals')
+
+  def id_atom(e):
+    t = core.norm(e)
+    for nm in idents:
+      if t == 'f is %s' % nm:
+        return 'IS_' + nm
+    if t in ('kwargs', 'kwargs is not None'):
+      return 'KW'
+    return None
+  cases = formula.return_cases(fakeb, formula.expanding(fakeb, id_atom))
   for nm, (fn_name, args) in wanted.items():
-    got = found.get(nm)
-    ok = got is not None and got[0] == 'py_builtins.' + fn_name and got[1] == args \
-        and not got[2]
-    rep.check(ok, 'BI-FRAME', '%s:dispatch(%s)' % (cc.site, nm),
+    only = formula.atom('IS_' + nm)
+    for other in idents:
+      if other != nm:
+        only = only & ~formula.atom('IS_' + other)
+    vals = sorted({core.norm(v) if v is not None else 'None'
+                   for f_, v in cases if formula.satisfiable(f_ & only)})
+    want = 'py_builtins.%s(%s)' % (fn_name, ', '.join(args))
+    rep.check(vals == [want], 'BI-FRAME', '%s:dispatch(%s)' % (cc.site, nm),
               '%s must be recognised by identity before the generic overload '
               'and dispatched to %s(%s)' % (nm, fn_name, ', '.join(args)),
-              {'found': got}, line=blt[0].lineno,
+              {'answers': vals}, line=blt[0].lineno,
               witness='%s() inside a functionalised loop body' % nm)
   ff = model.func(PYB, '_find_originating_frame')
   loops = [n for n in ast.walk(ff.node) if isinstance(n, ast.While)]
@@ -533,7 +539,7 @@ def check(model, rep, tier):
     if ok:
       mt = match_ifs[0]
       facts['match_test'] = core.norm(mt.test)
-      ok = pat.match('_F_.f_locals.get(%s.name, None) is %s' % (scope_p, scope_p),
+      ok = pat.match('_F_.f_locals.get(%s.name) is %s' % (scope_p, scope_p),
                      mt.test, b) is not None
       for x in brks:
         gd = None
